@@ -190,7 +190,7 @@ class WSStream:
         self.config = config
         self.context = context
         self.task_group = task_group
-        self.response: WebsocketResponseStartEvent
+        self.response: Optional[WebsocketResponseStartEvent] = None
         self.scope: WebsocketScope
         self.send = send
         # RFC 8441 for HTTP/2 says use http or https, ASGI says ws or wss
@@ -275,12 +275,12 @@ class WSStream:
                 await self._send_wsproto_event(CloseConnection(code=CloseReason.INTERNAL_ERROR))
             await self.send(StreamClosed(stream_id=self.stream_id))
         else:
-            if message["type"] == "websocket.accept" and self.state == ASGIWebsocketState.HANDSHAKE:
+            # Once a denial response has been started only its body can follow
+            handshake = self.state == ASGIWebsocketState.HANDSHAKE and self.response is None
+            if message["type"] == "websocket.accept" and handshake:
                 await self._accept(message)
-            elif (
-                message["type"] == "websocket.http.response.start"
-                and self.state == ASGIWebsocketState.HANDSHAKE
-            ):
+            elif message["type"] == "websocket.http.response.start" and handshake:
+                build_and_validate_headers(message["headers"])
                 self.response = message
             elif message["type"] == "websocket.http.response.body" and self.state in {
                 ASGIWebsocketState.HANDSHAKE,
@@ -296,9 +296,7 @@ class WSStream:
                 else:
                     event = TextMessage(data=message["text"])
                 await self._send_wsproto_event(event)
-            elif (
-                message["type"] == "websocket.close" and self.state == ASGIWebsocketState.HANDSHAKE
-            ):
+            elif message["type"] == "websocket.close" and handshake:
                 self.state = ASGIWebsocketState.HTTPCLOSED
                 await self._send_error_response(403)
             elif (
